@@ -65,6 +65,10 @@ LiveConfigs ==
     {Two("MetaepochLimit", n, <<1, 1>>, "DontStop", 0, "MetaepochLimit", 1, h) : n \in 0..3, h \in {0, 1}}
     \cup {Three("MetaepochLimit", n, <<1, 1, 1>>, h) : n \in 2..3, h \in {0, 1}}
     \cup {Two("MetaepochLimit", 3, <<1, 1>>, "DontRun", 0, "DontStop", 0, 0)}
+    \* conditions on the demes' activity: every deme stops after finitely many of its own metaepochs
+    \cup {Two("AllStopped", 0, <<1, 1>>, "MetaepochLimit", n, "MetaepochLimit", 1, 0) : n \in 1..3}
+    \cup {Two("RootStopped", 0, <<1, 1>>, "MetaepochLimit", n, "DontStop", 0, 0) : n \in 1..3}
+    \* (not Three("AllStopped"): its root stops only when all its children have - it may sprout for ever, the state space is infinite)
 
 QuickConfigs == ScriptedConfigs \cup ShippedConfigs \cup LocalMethodConfigs \cup BudgetConfigs
 =============================================================================
